@@ -93,6 +93,30 @@ def classify(src: str) -> str:
     raise Unsupported("_pickle_save has a shape outside the supported subset:\n" + ast.unparse(f))
 
 
+def tmp_parts(src: str):
+    """constant parts of the temporary sibling's name: `tmp = file.with_name(f"{file.name}<sep>{os.getpid()}<suffix>")`
+    -> (sep, suffix) as byte lists; None for the direct shape (no temporary)"""
+    tree = ast.parse(src)
+    f = next(n for n in tree.body if isinstance(n, ast.FunctionDef) and n.name == "_pickle_save")
+    file = f.args.args[0].arg
+    body = [s for s in f.body if not (isinstance(s, ast.Expr) and isinstance(s.value, ast.Constant))]
+    if not isinstance(body[0], ast.Assign):
+        return None
+    v = body[0].value
+    if not (isinstance(v, ast.Call) and ast.unparse(v.func) == f"{file}.with_name" and len(v.args) == 1 and not v.keywords
+            and isinstance(v.args[0], ast.JoinedStr)):
+        raise Unsupported("temporary name is not file.with_name(f'...'): " + ast.unparse(v))
+    parts = v.args[0].values
+    def fv(x, text):
+        return (isinstance(x, ast.FormattedValue) and x.conversion == -1 and x.format_spec is None
+                and ast.unparse(x.value) == text)
+    def const(x):
+        return isinstance(x, ast.Constant) and isinstance(x.value, str)
+    if not (len(parts) == 4 and fv(parts[0], f"{file}.name") and const(parts[1]) and fv(parts[2], "os.getpid()") and const(parts[3])):
+        raise Unsupported("temporary name is not f'{file.name}<sep>{os.getpid()}<suffix>': " + ast.unparse(v.args[0]))
+    return list(parts[1].value.encode()), list(parts[3].value.encode())
+
+
 def name_scheme(tree: ast.Module) -> str:
     """shape of the default `name_fn` (`_pickle_name`, and that `Cache.name_fn` defaults to it)"""
     fns = {n.name: n for n in tree.body if isinstance(n, ast.FunctionDef)}
@@ -142,7 +166,8 @@ def refuses_duplicates(tree: ast.Module) -> bool:
     raise Unsupported("parallelise has no `if cache is not None:` block")
 
 
-def render(mode: str, scheme: str = "plainStr", refuses: bool = False) -> str:
+def render(mode: str, scheme: str = "plainStr", refuses: bool = False, tmp=None) -> str:
+    sep, suffix = tmp if tmp is not None else ([], [])
     doc = {
         "direct": "open('wb') on the final path, pickle.dump",
         "atomic": "open('wb') on a temporary sibling, pickle.dump, rename onto the final path",
@@ -157,6 +182,9 @@ def render(mode: str, scheme: str = "plainStr", refuses: bool = False) -> str:
         f"def nameScheme : Mxl.C19.NameScheme := .{scheme}\n"
         "/-- `parallelise` raises when a cache is used with repeated keys -/\n"
         f"def refusesDuplicateKeys : Bool := {'true' if refuses else 'false'}\n"
+        "/-- constant parts of the temporary sibling's name `f\"{file.name}<sep>{os.getpid()}<suffix>\"` (bytes) -/\n"
+        f"def tmpSep : List Nat := {sep}\n"
+        f"def tmpSuffix : List Nat := {suffix}\n"
         "end Mxl.C19.Gen\n"
     )
 
@@ -176,6 +204,7 @@ def generate(repo: Path, outdir: Path) -> None:
         mode = classify(src)
         tree = ast.parse(src)
         scheme, refuses = name_scheme(tree), refuses_duplicates(tree)
+        tmp = tmp_parts(src)
     except Exception as e:
         # never leave a stale table behind: the dependent theorems must stop elaborating
         write_if_changed(out, "-- GENERATED by translate/c19.py: UNSUPPORTED source shape\n"
@@ -184,9 +213,10 @@ def generate(repo: Path, outdir: Path) -> None:
                               "def saveMode : Mxl.C19.SaveMode := .direct\n"
                               "def nameScheme : Mxl.C19.NameScheme := .plainStr\n"
                               "def refusesDuplicateKeys : Bool := false\n"
+                              "def tmpSep : List Nat := []\ndef tmpSuffix : List Nat := []\n"
                               "def unsupported : Unit := ()\nend Mxl.C19.Gen\n")
         raise
-    write_if_changed(out, render(mode, scheme, refuses))
+    write_if_changed(out, render(mode, scheme, refuses, tmp))
 
 
 if __name__ == "__main__":
